@@ -297,6 +297,38 @@ VARIANTS = [
      "old": "        notifiers = self._subscribe_all(message_names, _handler_wrapper, predicate=predicate)\n",
      "new": "        registered = self._subscribe_all(message_names, _handler_wrapper, predicate=predicate)\n"
             "        notifiers = registered\n"},
+    # ------------------------------------------------------------------ R9
+    {"name": "R9 command message dropped only after the command dispatch succeeded", "file": ADDONS, "expect": "C07.R9",
+     "old": ("                region.circuit.drop_message(message)\n"
+             "                with addon_ctx.push(session, region):\n"
+             "                    try:\n"
+             "                        cls._handle_command(session, region, message[\"ChatData\"][\"Message\"])\n"),
+     "new": ("                with addon_ctx.push(session, region):\n"
+             "                    try:\n"
+             "                        cls._handle_command(session, region, message[\"ChatData\"][\"Message\"])\n"
+             "                        region.circuit.drop_message(message)\n")},
+    {"name": "R9 command message claimed without being dropped", "file": ADDONS, "expect": "C07.R9",
+     "old": ("                region.circuit.drop_message(message)\n"
+             "                with addon_ctx.push(session, region):\n"),
+     "new": "                with addon_ctx.push(session, region):\n"},
+    {"name": "P R9 command message dropped in a finally around the dispatch", "file": ADDONS, "expect": "silent",
+     "old": ("                region.circuit.drop_message(message)\n"
+             "                with addon_ctx.push(session, region):\n"),
+     "new": ("                try:\n"
+             "                    region.circuit.drop_message(message)\n"
+             "                finally:\n"
+             "                    pass\n"
+             "                with addon_ctx.push(session, region):\n")},
+    {"name": "R9 empty RLV message claimed again (fix reverted)", "file": ADDONS, "expect": "C07.R9",
+     "old": "                all_cmds_handled = bool(commands)\n", "new": "                all_cmds_handled = True\n"},
+    {"name": "R9 handled RLV command no longer drops the message", "file": ADDONS, "expect": "C07.R9",
+     "old": "                        if handled:\n                            region.circuit.drop_message(message)\n"
+            "                        else:\n                            all_cmds_handled = False\n",
+     "new": "                        if not handled:\n                            all_cmds_handled = False\n"},
+    {"name": "P R9 non-empty test moved into the claim condition", "expect": "silent",
+     "edits": [{"file": ADDONS, "old": "                all_cmds_handled = bool(commands)\n", "new": "                all_cmds_handled = True\n"},
+               {"file": ADDONS, "old": "                if all_cmds_handled:\n                    return True\n",
+                "new": "                if commands and all_cmds_handled:\n                    return True\n"}]},
     # ------------------------------------------------------------------ documented limits
     {"name": "R4 queued original dropped only when reliable", "file": LLUDP, "expect": "C07.R4",
      "old": "        if message.queued:\n            region.circuit.drop_message(message)\n",
